@@ -773,7 +773,12 @@ def problems(spec, A, out):
         und = undecided_bare(spec, A)
         site = out[3].split("@")[1]
         typ = {"parse_int": "int", "parse_float": "float", "parse_boolean": "bool"}.get(site)
-        if typ and out[1] in ("TypeError", "ValueError") and any(o["type"] == typ for o in und):
+        if typ and any(o["type"] == typ for o in und):
+            # bare optional-value option, default None, non-nullable int/float/bool: 'no value' has no conversion to the
+            # declared type, so there is no assignment to recover (outside the quantifier of C01).  The documented
+            # outcome for a value that does not convert is ValueError; anything else (D3: TypeError) is reported.
+            if out[1] == "ValueError" and '"None"' in out[2]:
+                return []
             return [("bare-optional-none-default|%s|%s" % (typ, out[1]),
                      "a well-formed line did not parse: %s: %s" % (out[1], out[2]))]
         return [("raises|%s" % out[3], "a well-formed line did not parse: %s: %s" % (out[1], out[2]))]
